@@ -61,8 +61,12 @@ func (publisherSelf *PublisherDef[T]) Unsubscribe(s *Subscription[T]) {
 		for i, v := range subscribers {
 			if v == s {
 				isAnyMatching = true
-				subscribers = append(subscribers[:i], subscribers[i+1:]...)
-				publisherSelf.subscribers = subscribers
+				// Copy on write: a running Publish() iterates its own snapshot of the old slice,
+				// compacting that backing array in place would make it skip/repeat subscribers
+				remaining := make([]*Subscription[T], 0, len(subscribers)-1)
+				remaining = append(remaining, subscribers[:i]...)
+				remaining = append(remaining, subscribers[i+1:]...)
+				publisherSelf.subscribers = remaining
 				break
 			}
 		}
@@ -82,6 +86,8 @@ func (publisherSelf *PublisherDef[T]) Publish(result T) {
 	})
 
 	for _, s := range subscribers {
+		// Each (possibly posted) delivery needs its own subscription variable
+		s := s
 		if s.OnNext != nil {
 
 			doSub := func() {
